@@ -5,7 +5,11 @@ package main
 import (
 	"fmt"
 	"math/rand"
+	"net"
 	"strings"
+	"sync/atomic"
+
+	g "github.com/rminnich/go9p"
 )
 
 func init() {
@@ -312,4 +316,55 @@ func withOracle(c *Ctx, f func(o *oracleState, st *seqStep), gen func(c *Ctx)) {
 }
 
 func genC05(c *Ctx) { withOracle(c, (*oracleState).c05, genSeq) }
-func genC12(c *Ctx) { withOracle(c, (*oracleState).c12, genSeq) }
+func genC12(c *Ctx) {
+	withOracle(c, (*oracleState).c12, genSeq)
+	genConnect(c)
+}
+
+// the client's Connect against the real framework, both dialects on both sides, msizes around each other
+// and around the I/O header: what the two ends agree on is compared with G9.Version.connect
+func genConnect(c *Ctx) {
+	sizes := []uint32{0, 23, 24, 25, 100, 4096, 8192, 8216, 65536, 1 << 20}
+	for _, cm := range sizes {
+		for _, sm := range sizes {
+			if sm < 24 {
+				continue // a server that cannot carry an I/O header is a configuration error, not a negotiation
+			}
+			for _, cd := range []bool{false, true} {
+				for _, sd := range []bool{false, true} {
+					line := fmt.Sprintf("connect %d %s %d %s", cm, b2s(cd), sm, b2s(sd))
+					c.begin(line)
+					obs, ok := execConnect(line)
+					c.count("connect")
+					c.emit(line, obs, ok)
+				}
+			}
+		}
+	}
+}
+
+// execConnect runs one `connect <client msize> <client dotu> <server msize> <server dotu>` line.
+func execConnect(line string) (string, bool) {
+	t := strings.Fields(line)
+	cm, cd := uint32(atou(t[1], 32)), t[2] == "1"
+	sm, sd := uint32(atou(t[3], 32)), t[4] == "1"
+	srv := &g.Srv{Msize: sm, Dotu: sd, Log: sharedLog}
+	if !srv.Start(&script{}) {
+		panic("Srv.Start refused the scripted ops")
+	}
+	a, b := net.Pipe()
+	srv.NewConn(pconn{a})
+	var sc *g.Conn
+	for _, cn := range g.VerifConns(srv) {
+		sc = cn
+	}
+	defer b.Close()
+	cl, err := g.Connect(pconn{b}, cm, cd)
+	if err != nil || sc == nil {
+		return "refused", false
+	}
+	vi := g.VerifConn(sc)
+	obs := fmt.Sprintf("ok %d %s %d %s", atomic.LoadUint32(&cl.Msize), b2s(cl.Dotu), vi.Msize, b2s(vi.Dotu))
+	cl.Unmount()
+	return obs, true
+}
